@@ -8,7 +8,7 @@
     payload bytes and (a superset of) all valid-UTF-8 strings.  Library behaviour enters only as
     an explicit, pointwise hypothesis of the round-trip theorems. *)
 From WM Require Import Base.Prelude Message.Model Value.Model Value.Codec Value.Json Value.ToyCodec
-  Value.EqualsProofs Value.CodecProofs Value.StoreProofs Value.JsonProofs Value.ToyProofs Value.CrossProofs.
+  Value.EqualsProofs Value.CodecProofs Value.StoreProofs Value.JsonProofs Value.ToyProofs Value.CrossProofs Value.Reuse Value.ReuseProofs.
 
 (** * Equals *)
 
@@ -329,6 +329,48 @@ Theorem C16_envelope_context : forall jenc jdec nu dest m c c' w,
   snd w = c /\ unwrap_c jdec (fst w, c') = Ok (dest, (m, c')).
 Proof. exact envelope_context. Qed.
 
+(** * Round "seeds 3": Unmarshal is a function of the payload AND of what the target held *)
+
+(** whatever the target held before — a previous message, defaults, a pooled value — after
+    Unmarshal(Marshal v) it holds v, provided the library call resets its target
+    (proto.Unmarshal's documented contract) and reads v back into a fresh one *)
+Theorem C16_cqrs_proto_roundtrip_reused_target : forall V type_string gen_name cfg_uuid default_uuid is_msg venc vdec_into zero (v : V) m prev,
+  resets V vdec_into zero ->
+  (forall b, venc v = Some b -> vdec_into zero (pl_bytes b) = Some v) ->
+  proto_marshal V type_string gen_name cfg_uuid default_uuid is_msg venc v = Ok m ->
+  proto_unmarshal_into V vdec_into is_msg prev m = Ok v.
+Proof. exact proto_roundtrip_reused. Qed.
+
+(** the same statement for the JSON marshaler; encoding/json satisfies [resets] only for targets
+    without maps / omitted fields (it merges into those), which the check measures case by case *)
+Theorem C16_cqrs_json_roundtrip_reused_target : forall V type_string gen_name cfg_uuid default_uuid venc vdec_into zero (v : V) m prev,
+  resets V vdec_into zero ->
+  (forall b, venc v = Some b -> vdec_into zero (pl_bytes b) = Some v) ->
+  json_marshal V type_string gen_name cfg_uuid default_uuid venc v = Ok m ->
+  json_unmarshal_into V vdec_into prev m = Ok v.
+Proof. exact json_roundtrip_reused. Qed.
+
+(** the gogo marshaler: the fallback runs on whatever the failed gogo attempt left in the target *)
+Theorem C16_cqrs_gogo_roundtrip_reused_target : forall V type_string gen_name cfg_uuid default_uuid is_msg venc vdec_into
+    is_gogo genc gdec_into nofb zero (v : V) m prev,
+  resets V vdec_into zero -> gogo_resets V gdec_into zero ->
+  (forall b, genc v = LOk b -> fst (gdec_into zero (pl_bytes b)) = LOk v) ->
+  (forall b, venc v = Some b -> vdec_into zero (pl_bytes b) = Some v) ->
+  (forall b v', venc v = Some b -> fst (gdec_into zero (pl_bytes b)) = LOk v' -> v' = v) ->
+  gogo_marshal V type_string gen_name cfg_uuid default_uuid is_msg venc is_gogo genc nofb v = Ok m ->
+  gogo_unmarshal_into V vdec_into is_msg is_gogo gdec_into nofb true prev m = Ok v.
+Proof. exact gogo_roundtrip_reused. Qed.
+
+(** a call that merges into its target instead (repeated fields appended) reads every value back
+    into a fresh target and still breaks the identity on a used one *)
+Theorem C16_cqrs_roundtrip_reused_target_merging_refuted :
+  exists (venc : list N -> option (option (list N))) (vdec_into : list N -> list N -> option (list N)) prev v m,
+    (forall v b, venc v = Some b -> vdec_into [] (pl_bytes b) = Some v)
+    /\ proto_marshal (list N) (fun _ => []) None None [] true venc v = Ok m
+    /\ proto_unmarshal_into (list N) vdec_into true [] m = Ok v
+    /\ proto_unmarshal_into (list N) vdec_into true prev m <> Ok v.
+Proof. exact roundtrip_reused_merging_refuted. Qed.
+
 Print Assumptions C16_equals_iff.
 Print Assumptions C16_equals_iff_refuted.
 Print Assumptions C16_equals_symmetric_refuted.
@@ -374,6 +416,11 @@ Print Assumptions C16_cqrs_gogo_then_proto.
 Print Assumptions C16_cqrs_gogo_cross_config_partial.
 Print Assumptions C16_cqrs_gogo_cross_config_refuted.
 Print Assumptions C16_envelope_context.
+
+Print Assumptions C16_cqrs_proto_roundtrip_reused_target.
+Print Assumptions C16_cqrs_json_roundtrip_reused_target.
+Print Assumptions C16_cqrs_gogo_roundtrip_reused_target.
+Print Assumptions C16_cqrs_roundtrip_reused_target_merging_refuted.
 
 (** * Non-vacuity *)
 
